@@ -13,18 +13,18 @@ if kind == 'seeded':
 else:
     items = {os.path.basename(p)[:-5]: p for p in sorted(glob.glob(V + '/selftest/benign/*.diff'))}
     out = V + '/selftest/BENIGN.json'
-sel = sys.argv[2:]
+sel = [a for a in sys.argv[2:] if not a.startswith('-j')]
+jobs = max([int(a[2:]) for a in sys.argv[2:] if a.startswith('-j')] or [1])
 res = json.load(open(out)) if os.path.exists(out) else {}
-for name, patch in items.items():
-    if sel and name not in sel:
-        continue
+
+
+def one(name, patch):
     w = tempfile.mkdtemp(prefix='patchrepo.', dir='/tmp')
     try:
         subprocess.run(['rsync', '-a', '--exclude', 'target', '--exclude', '.git', '/repo/', w + '/'], check=True)
         subprocess.run('git init -q && git add -A >/dev/null && git -c user.email=a@b -c user.name=x commit -qm base', shell=True, cwd=w, check=True)
         if subprocess.run(['git', 'apply', patch], cwd=w).returncode != 0:
-            res[name] = {'error': 'patch does not apply to the current /repo'}
-            continue
+            return name, {'error': 'patch does not apply to the current /repo'}
         env = dict(os.environ, SWV_REPO=w, SWV_EVIDENCE_DIR=tempfile.mkdtemp(prefix='patchev.', dir='/tmp'))
         fired = {}
         for c in CHECKS:
@@ -40,8 +40,18 @@ for name, patch in items.items():
                              V + '/rules'], env=env, capture_output=True, text=True).stdout.strip()
         if th and os.path.isdir(V + '/.cache/facts/' + th):
             shutil.rmtree(V + '/.cache/facts/' + th, ignore_errors=True)
-        res[name] = {'fired': fired}
-        print(name, '->', {c: v['rules'] or v['incomplete'] for c, v in fired.items()}, flush=True)
+        return name, {'fired': fired}
     finally:
         shutil.rmtree(w, ignore_errors=True)
-    json.dump(res, open(out, 'w'), indent=1, sort_keys=True)
+
+
+from concurrent.futures import ThreadPoolExecutor
+todo = [(n, p) for n, p in items.items() if not sel or n in sel]
+with ThreadPoolExecutor(max_workers=jobs) as ex:
+    for name, r in ex.map(lambda np: one(*np), todo):
+        res[name] = r
+        if 'fired' in r:
+            print(name, '->', {c: v['rules'] or v['incomplete'] for c, v in r['fired'].items()}, flush=True)
+        else:
+            print(name, '->', r, flush=True)
+        json.dump(res, open(out, 'w'), indent=1, sort_keys=True)
